@@ -95,7 +95,9 @@ inductive Ev where
   | aget (r : Nat) (idx : List Idx)     -- BaseProxyDap2/4.__getitem__: one GET, keeps no state
   | fattr (r : Nat) (name : Name)     -- Functions.__getattr__
   | fcall (r : Nat) (args : Name)     -- ServerFunction.__call__ (argument ids/literals, joined)
-  | rget (r : Nat)                      -- ServerFunctionResult.__getitem__: .dods + .das once, then cached
+  | rget (r : Nat) (decodes : Bool)     -- ServerFunctionResult.__getitem__ → open_dods_url: GET .dods; when the answer
+                                        -- decodes (webob transport) also GET .das and cache the dataset; with a requests
+                                        -- session `r.body` raises AttributeError right after the first GET
 deriving DecidableEq, Repr, Inhabited
 
 def joinDot : List Name → Name
@@ -208,12 +210,14 @@ def stepWith (cp : Heap → SeqProxy → Option (Heap × SeqProxy)) (h : Heap) :
     match h.objs[r]? with
     | some (.fn b name s) => pushObj h (.res b (name ++ '(' :: args ++ [')']) s false)
     | _ => h
-  | .rget r =>
+  | .rget r dec =>
     match h.objs[r]? with
     | some (.res b id s false) =>
       let h1 := pushLog h s { baseurl := b, ext := .dods, ids := [id], slab := [], selection := [] }
-      let h2 := pushLog h1 s { baseurl := b, ext := .das, ids := [id], slab := [], selection := [] }
-      { h2 with objs := h2.objs.set r (.res b id s true) }
+      if dec then
+        let h2 := pushLog h1 s { baseurl := b, ext := .das, ids := [id], slab := [], selection := [] }
+        { h2 with objs := h2.objs.set r (.res b id s true) }
+      else h1
     | _ => h
 
 def step : Heap → Ev → Heap := stepWith seqCopy
